@@ -138,7 +138,7 @@ async fn serve(listener: tokio::net::TcpListener, st: Arc<Mutex<MockState>>) {
 fn gen_gs(rng: &mut Rng, name: &str) -> Gs {
     let kind = rng.below(12);
     Gs { name: name.to_string(),
-        address: if kind == 0 { rng.pick(&["", "not-an-ip", "10.0.0.256"]).to_string() } else { rng.pick(&["10.0.0.1", "10.1.2.3", "2001:db8::5", "::1"]).to_string() },
+        address: if kind == 0 { rng.pick(&["", "not-an-ip", "10.0.0.256", "010.0.0.1", "10.0.0.1.", "10.0.0"]).to_string() } else { rng.pick(&["10.0.0.1", "10.1.2.3", "2001:db8::5", "::1"]).to_string() },
         ports: if kind == 1 { vec![] } else { (0..rng.range(1, 3)).map(|_| *rng.pick(&[7000u16, 7001, 25565, 1])).collect() },
         state: rng.pick(&["Ready", "Ready", "Ready", "Allocated", "Shutdown", "Scheduled", "Unhealthy", "Reserved", "Creating", "RequestReady"]).to_string(),
         counters: if rng.chance(1, 3) { Some(vec![("players".to_string(), if rng.chance(1, 4) { None } else { Some(rng.below(50) as u32) })]) } else { None },
